@@ -166,6 +166,20 @@ Theorem cell_iterations_any_order : forall (V : Type) (its its' : list (nat * (V
 Proof. exact cells_perm. Qed.
 Print Assumptions cell_iterations_any_order.
 
+(* ---------------------------------------------------------------- large trace counts (run-length encoded cases) *)
+(* The large-n correspondence cases give each set as runs (row, repetitions).  The state the check computes on the runs
+   (weighted sums) is the accumulation of the EXPANDED set, and the expected result it derives is the definition on
+   the expanded columns. *)
+Theorem run_length_state_is_the_expanded_state : forall (j : nat) (runs : list (list Z * positive)),
+  wst j runs = t_upd st_zero (map (rl_val j) (expand runs)).
+Proof. intros j runs. rewrite t_upd_zero. apply wst_is_expanded. Qed.
+Print Assumptions run_length_state_is_the_expanded_state.
+
+Theorem run_length_spec_is_the_spec : forall (j : nat) (r1 r2 : list (list Z * positive)),
+  welch_code (wst j r1) (wst j r2) = welch_def (map (rl_val j) (expand r1)) (map (rl_val j) (expand r2)).
+Proof. exact rl_spec_is_the_spec. Qed.
+Print Assumptions run_length_spec_is_the_spec.
+
 (* ================================================================ non-vacuity *)
 Local Open Scope Z_scope.
 Definition ql (l : list Z) : list Qc := map qz l.
@@ -264,3 +278,12 @@ Example tt_check_discriminates :
   /\ tt_check (mk (Fin (-5696652996790543) (-52)) 2 (Fin 9 0) 0%nat) = false       (* sum_squared overwritten *)
   /\ tt_check (mk (Fin (-5696652996790543) (-52)) 2 (Fin 10 0) 1%nat) = false.     (* an exception although nothing failed *)
 Proof. vm_compute. repeat split; reflexivity. Qed.
+
+(* run-length cases: 40000 traces at 255 and 30000 at 250 against 5 traces: the weighted state is what the expansion gives
+   (here n and the sum of squares 40000*255^2 + 30000*250^2 = 4476000000 > 2^31: an int32 intermediate would wrap) *)
+Example run_length_example :
+  let r1 := [([255], 40000%positive); ([250], 30000%positive)] in
+  st_eqb (wst 0 r1) (Q2Qc (inject_Z 70000), Q2Qc (inject_Z 17700000), Q2Qc (inject_Z 4476000000)) = true
+  /\ Z.of_nat (length (expand r1)) = 70000
+  /\ welch_code (wst 0 r1) (wst 0 [([1], 2%positive); ([4], 3%positive)]) <> None.
+Proof. split; [vm_compute; reflexivity|split; [vm_compute; reflexivity|vm_compute; discriminate]]. Qed.
